@@ -2,7 +2,7 @@
 # confirm_seeded.sh <name> <agent-worktree> : re-verify a sub-agent's change in a fresh scratch worktree
 # (suite passes with the change, demo fails with it and passes without it), then store it under /verif/seeded/<name>/
 set -u
-name=$1; wt=$2
+name=$1; wt=$2; extra=${3:-}
 scratch=/tmp/confirm/$name
 export CARGO_NET_OFFLINE=true CARGO_TARGET_DIR=/tmp/confirm-target
 rm -rf $scratch; git -C /repo worktree prune; git -C /repo worktree add -q --detach $scratch HEAD || exit 2
@@ -13,9 +13,9 @@ cd $scratch
 git apply $wt/seeded.patch || { echo "PATCH DOES NOT APPLY"; exit 2; }
 suite=$(cargo test --workspace --no-fail-fast --offline 2>&1 | grep -E "^test result" | awk '{p+=$4; f+=$6} END {print p" passed "f" failed"}')
 cp $wt/$demo $scratch/$demo
-cargo test -p $crate --offline --test $tname >/tmp/confirm/$name.with.log 2>&1; with=$?
+cargo test -p $crate --offline $extra --test $tname >/tmp/confirm/$name.with.log 2>&1; with=$?
 git checkout -q -- .
-cargo test -p $crate --offline --test $tname >/tmp/confirm/$name.without.log 2>&1; without=$?
+cargo test -p $crate --offline $extra --test $tname >/tmp/confirm/$name.without.log 2>&1; without=$?
 echo "$name: suite with change: $suite | demo with change exit=$with (want !=0) | demo without change exit=$without (want 0)"
 if [ "$with" != 0 ] && [ "$without" = 0 ] && echo "$suite" | grep -q " 0 failed"; then
   mkdir -p /verif/seeded/$name
